@@ -54,7 +54,7 @@ def cases(draw):
         # per-prefix traversal (remote size is estimated from the '00' bucket)
         "zeros": draw(st.sampled_from([0, 0, 0, 0, 20, 24])),
         # the collected store's own algorithm (legacy stores are named md5-dos2unix)
-        "algo": draw(st.sampled_from(["md5", "md5", "md5-dos2unix"])),
+        "algo": draw(st.sampled_from(["md5", "md5", "md5-dos2unix", "sha256", "sha1"])),
         # legacy `<oid>.dir.unpacked` leftovers next to directory objects (gc cleans them up for compatibility)
         "unpacked": draw(st.sampled_from([0, 0, 1, 3])),
         # everything after the first top-level object is added through a SECOND handle on the same store,
@@ -72,6 +72,38 @@ def cases(draw):
     }
 
 
+def _stage(odb, path, algo):
+    """stage+transfer through the library for the md5 flavours; for other algorithms (whose build() path is the
+    external-output one) write reference objects straight into the store. Returns the top-level id."""
+    if algo.startswith("md5"):
+        _, obj, _ = ops.stage_transfer(odb, path)
+        return obj.hash_info.value
+
+    def put(oid, data):
+        p = odb.oid_to_path(oid)
+        if not os.path.exists(p):
+            gen.write_file(p, data)
+            os.chmod(p, 0o444)
+
+    if os.path.isdir(path):
+        flat = {}
+        for r, _d, fs_ in os.walk(path):
+            for f in fs_:
+                full = os.path.join(r, f)
+                flat[os.path.relpath(full, path).replace(os.sep, "/")] = ref.read(full)
+        man = ref.tree_manifest(flat, algo)
+        for rel, oid in man.items():
+            put(oid, flat[rel])
+        top = ref.ref_tree_oid(man, algo)
+        put(top, ref.ref_tree_bytes(man, algo))
+        odb._dirs = None
+        return top
+    data = ref.read(path)
+    put(ref.ref_hash(data, algo), data)
+    odb._dirs = None
+    return ref.ref_hash(data, algo)
+
+
 ABSENT = ["d41d8cd98f00b204e9800998ecf8427f", "0" * 32, "f" * 32, "00112233445566778899aabbccddeeff",
           "abcdefabcdefabcdefabcdefabcdefab", "12" * 16]
 
@@ -85,7 +117,8 @@ def run_case(case, ctx):
         store = os.path.join(d, "store")
         algo = case.get("algo", "md5")
         other = "md5-dos2unix" if algo == "md5" else "md5"
-        foreign = other if case.get("foreign") == "md5-family" else "sha256"
+        key_name = "md5" if algo.startswith("md5") else algo
+        foreign = other if case.get("foreign") == "md5-family" or algo == "sha256" else "sha256"
         os.makedirs(os.path.join(d, "x"), exist_ok=True)
         spelled = {
             "trailing-sep": store + os.sep,
@@ -102,36 +135,34 @@ def run_case(case, ctx):
         for i, t in enumerate(case["trees"]):
             src = os.path.join(d, f"t{i}")
             gen.materialise(t, src)
-            _, obj, _ = ops.stage_transfer(odb if i == 0 else odb2, src)
-            dir_ids.append(obj.hash_info.value)
+            dir_ids.append(_stage(odb if i == 0 else odb2, src, algo))
             if cache is not None:
-                ops.stage_transfer(cache, src)
+                _stage(cache, src, algo)
         if case.get("zeros"):
             from .c12 import zeros
 
             src = os.path.join(d, "tz")
             gen.materialise({f"z{j}": "h:" + zeros()[j].hex() for j in range(case["zeros"])}, src)
-            _, obj, _ = ops.stage_transfer(odb2, src)
-            dir_ids.append(obj.hash_info.value)
+            dir_ids.append(_stage(odb2, src, algo))
             if cache is not None:
-                ops.stage_transfer(cache, src)
+                _stage(cache, src, algo)
             # plus loose objects in the SAME fan-out directory ('00') that belong to no tree: an unused object
             # next to files that are used only through a directory
             for j in range(case["zeros"], min(case["zeros"] + 3, len(zeros()))):
                 p = os.path.join(d, f"loosez{j}")
                 gen.write_file(p, zeros()[j])
-                ops.stage_transfer(odb2, p)
+                _stage(odb2, p, algo)
         for i, c in enumerate(case["loose"]):
             p = os.path.join(d, f"loose{i}")
             gen.write_file(p, gen.content_bytes(c))
-            ops.stage_transfer(odb2, p)
+            _stage(odb2, p, algo)
 
         if case.get("bulk"):
             import hashlib
 
             for j in range(case["bulk"]):
                 data = b"bulk object %d" % j
-                oid = hashlib.md5(data).hexdigest()  # noqa: S324 (no CRLF: same id for md5-dos2unix)
+                oid = ref.ref_hash(data, algo)  # (no CRLF: same id for both md5 flavours)
                 p = odb.oid_to_path(oid)
                 gen.write_file(p, data)
                 os.chmod(p, 0o444)
@@ -191,7 +222,7 @@ def run_case(case, ctx):
                         # precondition: used directories are loadable from cache_odb
                         return Result(classes=["skipped-precondition"])
                     lst = ref.parse_listing(data)
-                    keep.update(e["md5"] for e in lst)
+                    keep.update(e[key_name] for e in lst)
                     labels.add("expanded-dir")
         expected_removed = set(before) - keep
 
